@@ -42,10 +42,60 @@ def dval(me):
     return math.ldexp(me[0], me[1])
 
 
+def me_of_float(x):
+    """the double x as (m, e) with x = m * 2**e exactly, m odd (or (0, 0))"""
+    if x == 0.0:
+        return (0, 0)
+    f, e = math.frexp(x)
+    m, e = int(f * 2.0 ** 53), e - 53
+    while m % 2 == 0:
+        m //= 2
+        e += 1
+    return (m, e)
+
+
+def nextk(me, k):
+    """the double k units in the last place away (k < 0: towards -inf); None when that leaves the finite doubles"""
+    x = dval(me)
+    for _ in range(abs(k)):
+        x = math.nextafter(x, math.inf if k > 0 else -math.inf)
+    return None if math.isinf(x) else me_of_float(x)
+
+
+def bits(x):
+    import struct
+    return struct.unpack("<Q", struct.pack("<d", x))[0]
+
+
+def ulps(x, y):
+    """utilities.cpp: ulpsDistance on finite doubles"""
+    return abs(bits(x) - bits(y))
+
+
+def nearly_equal(x, y):
+    """utilities.cpp: areNearlyEqual on finite doubles"""
+    if abs(x - y) <= EPS:
+        return True
+    if (x < 0.0) != (y < 0.0):
+        return False
+    return ulps(x, y) <= 1
+
+
+# bases of the ULP-boundary pairs (x, nextafter^k x): powers of two, just below / above them, 1.0, small and large
+# magnitudes, negative values, the DBL_EPSILON scale (where the absolute test of areNearlyEqual takes over), denormals
+ULPBASE = [me_of_float(v) for v in (
+    2.0, 4.0, 1024.0, 2.0 ** -3, 2.0 ** 52, 1.0, 0.5, 3.0, 1000.0, 0.1, 1e300, 1e-300, 1.7976931348623157e308,
+    math.nextafter(1024.0, 0.0), math.nextafter(1024.0, math.inf), math.nextafter(2.0, 0.0), math.nextafter(1.0, 0.0),
+    -2.0, -1.0, -1024.0, -0.75, -1e10,
+    2.0 ** -52, 2.0 ** -51, 2.0 ** -50, 4.4e-16, 1e-15, 3e-16,
+    5e-324, 2.0 ** -1060, 2.2250738585072014e-308, 0.0)]
+
+
 class Gen:
-    def __init__(self, rng, tiny=0.02, maxlist=4, maxdepth=3):
+    def __init__(self, rng, tiny=0.02, maxlist=4, maxdepth=3, ulp=0.1):
         self.rng = rng
         self.tiny = tiny
+        self.ulp = ulp
         self.maxlist = maxlist
         self.maxdepth = maxdepth
 
@@ -65,8 +115,14 @@ class Gen:
         return self.maxlist
 
     def dbl(self):
-        if self.rng.random() < self.tiny:
+        r = self.rng.random()
+        if r < self.tiny:
             return self.pick(TINY)
+        if r < self.tiny + self.ulp:
+            x = self.pick(ULPBASE)
+            if self.rng.random() < 0.5:
+                x = nextk(x, self.pick([-4, -3, -2, -1, 1, 2, 3, 4])) or x
+            return x
         return self.pick(DBL)
 
     def isrc(self):
@@ -163,7 +219,12 @@ class Gen:
         return self.pick(c)
 
     def other_dbl(self, old):
-        # mostly a far-apart value; sometimes a tiny one (the sub-epsilon class)
+        # a neighbour 1..4 units in the last place away (either direction); else mostly a far-apart value,
+        # sometimes a tiny one (the sub-epsilon class)
+        if self.rng.random() < 0.45:
+            x = nextk(old, self.pick([-4, -3, -2, -1, 1, 2, 3, 4]))
+            if x is not None and x != old:
+                return x
         if self.rng.random() < 0.1 or old in TINY:
             c = [x for x in (TINY + DBL[:2]) if x != old]
         else:
@@ -206,8 +267,9 @@ class Gen:
         elif k == 'D':
             yield from strattr(1, "ref", UREFS)
             yield from strattr(2, "prefix", PREFIXES)
-            yield ("exp", rep(3, self.other_dbl(t[3])))
-            yield ("mult", rep(4, self.other_dbl(t[4])))
+            for i, nm in ((3, "exp"), (4, "mult")):
+                new = self.other_dbl(t[i])
+                yield ("%s@%d^%d>%d^%d" % ((nm,) + t[i] + new), rep(i, new))
             yield from strattr(5, "id", IDS + ["j"])
         elif k == 'U':
             yield from strattr(1, "name", NAMES + ["c"])
